@@ -9,6 +9,7 @@ from z3 import *
 from pyvc.core import *
 
 PROPS = ['C01', 'C06', 'C07', 'C08', 'C10', 'C12']
+REPLAY = {'driver': 'callback'}
 REL = 'taskiq/receiver/receiver.py'
 TRUSTED = [
     "taskiq_dependencies (external): graph.async_ctx(cache, overrides) keeps a reference to `cache` and reads it at later suspension points => requires fresh(cache)",
@@ -192,6 +193,8 @@ def generate(src):
             if u == 'middleware.__class__.on_error != TaskiqMiddleware.on_error': return k(st, PyBool(over(st.env['__i'])))
             if u == 'middleware.__class__.on_error == TaskiqMiddleware.on_error': return k(st, PyBool(Not(over(st.env['__i']))))
             if u == 'message.task_name not in self.known_tasks': return k(st, PyBool(fresh('unknown_task', BoolSort())))
+            if len(e.ops) == 1 and isinstance(e.ops[0], (ast.In, ast.NotIn)) and ast.unparse(e.comparators[0]).startswith('self.'):
+                return k(st, PyBool(fresh('membership_in_' + ast.unparse(e.comparators[0]).replace('.', '_'), BoolSort())))      # membership in receiver-held bookkeeping: unconstrained
             return super().ev_Compare(e, st, k, K)
         def ev_Dict(self, e, st, k, K):
             if not e.keys:
